@@ -230,6 +230,19 @@ def worker(shard: dict) -> dict:  # noqa: PLR0912
                 judge(m, "mutant", acc, vk)
             if i == 0:
                 acc.sample({"generated": t[:300]})
+    elif kind == "families":
+        # printed grammars of the bounded-exhaustive families: size (rule chains, wide choices, nesting, counts up to the
+        # stated bounds) and the shapes the optimizer passes pattern-match on, here also with empty literals as operands
+        from pv.gen import grammars as G
+        from pv.ref.refpeg import grammar_text as show
+
+        for idx in shard["scale"]:
+            c = G.scale_case(idx)
+            if c is not None:
+                judge(show(c[1]), "scale_family", acc, vk)
+        for idx in shard["opt"]:
+            _label, rules, _inputs = G.opt_target_case(idx, G.OPT_OPERANDS_WITH_EMPTY)
+            judge(show(rules), "optimizer_target_family", acc, vk)
     elif kind == "escapes":
         for _ in range(shard["count"]):
             judge(gtexts.escape_text(rnd), "escape_form", acc, vk)
@@ -274,6 +287,15 @@ def main(tier: str, seed: int) -> int:
     shards.append({"kind": "edges", "seed": 0})
     for j in range(8):
         shards.append({"kind": "escapes", "seed": seed_int("C11", seed, "esc", j), "count": run.pick(400, 6000)})
+    from pv.gen import grammars as G
+
+    sc = list(range(G.scale_size()))
+    ot = list(range(G.opt_target_size(G.OPT_OPERANDS_WITH_EMPTY)))
+    random.Random(seed_int("C11", seed, "fam")).shuffle(ot)
+    if run.quick:
+        ot = ot[:3000]
+    for j in range(16):
+        shards.append({"kind": "families", "scale": sc[j::16], "opt": ot[j::16], "seed": 0})
     alpha = list('ab_ ={}()[]|~*+?!&^"\'\\.,#/@$-019\nPE') if not run.quick else list('a ={(|~*!&^"\'\\.#/-1\nP')
     for t in SMALL[: run.pick(2, 3)]:
         shards.append({"kind": "pointwise", "text": t, "alphabet": alpha, "seed": 0})
@@ -283,7 +305,9 @@ def main(tier: str, seed: int) -> int:
             "every text is loaded with optimizer=None and with the default optimizer: EVERY prefix of every bundled .pest file (a stride in the quick "
             "tier), prefixes of generated grammars, every single-character insertion / substitution / deletion at every offset of small grammars, "
             "meta-grammar derivations, printed random ASTs, their char/token mutants, token and character soups, a table of edge texts (ends inside "
-            "string / escape / comment / rule, malformed and out-of-range escapes, reversed ranges, undefined rules). Outcome must be Parser or "
+            "string / escape / comment / rule, malformed and out-of-range escapes, reversed ranges, undefined rules), and the printed grammars of two "
+            "bounded-exhaustive families: size (rule chains in both definition orders, wide choices, long sequences, nesting, counts, up to the stated "
+            "bounds) and the shapes the optimizer passes pattern-match on, with empty literals among the operands. Outcome must be Parser or "
             "PestGrammarError whose message renders and whose line:col exists. distinct_nontrivial = distinct non-blank texts."
         ),
         assumptions=[
@@ -291,7 +315,8 @@ def main(tier: str, seed: int) -> int:
             "a printed position is accepted if it exists under '\\n'-splitting or str.splitlines()",
         ],
         evaluations_key="loads",
-        floors={"loads": 20000, "outcome.Parser": 500, "outcome.PestGrammarSyntaxError": 5000, "messages_rendered_and_position_checked": 5000, "source.truncation_of_bundled": 2000, "source.edge_text": 100},
+        floors={"loads": 20000, "outcome.Parser": 500, "outcome.PestGrammarSyntaxError": 5000, "messages_rendered_and_position_checked": 5000, "source.truncation_of_bundled": 2000, "source.edge_text": 100,
+                "source.scale_family": 2000, "source.optimizer_target_family": 4000},
     )
 
 
